@@ -1,0 +1,12 @@
+//go:build verif
+
+package sampling
+
+// Contracts read by /verif/cmd/lvc (comment-only file).
+
+// A PRNG fills the whole buffer and does not fail (the keyed BLAKE2b XOF fails only after 2^32
+// output bytes of one key; the samplers treat an error as a sanity-check panic): ASSUMED.
+//@ func PRNG.Read
+//@   trusted the generator fills p completely and returns no error
+//@   assigns p
+//@   ensures n == len(p) && err == nil
